@@ -2,7 +2,8 @@
    Model: Model/Counter.v (memmetrics/counter.go + ratio.go as they are now: bucket index
    (t.Truncate(r).UnixNano() / r) % N, Go's Truncate counted from the zero time, Reset storing the zero time).
    Histories are arbitrary lists of Inc v / Count / Tick d / Reset / IncA v / IncB v / Ratio / RReset /
-   Append v (of a freshly filled counter) / AppendClone (of the counter's own Clone) from a
+   Append v (of a freshly filled counter) / AppendClone (of the counter's own Clone) / TakeClone / SnapCount / SnapInc v
+   (a kept Clone and what is done with it later) from a
    fresh counter and a fresh ratio counter; [gexec] additionally carries, per counter, the ghost log of the
    (instant, amount) of every increment since that counter's last Reset ([g0] for the RollingCounter,
    [ga]/[gb] for the two halves of the RatioCounter).  Hypotheses on the configuration: N >= 1 buckets,
@@ -37,7 +38,7 @@ Print Assumptions C17_slot_index.
 Theorem C17_inv : forall N r start ops s h,
   1 <= N -> 1 <= r -> N * r <= start -> ticks_nonneg ops ->
   gexec r (init N start) gnil ops = (s, h) ->
-  forall c l, In (c, l) [(c0 s, g0 h); (ca s, ga h); (cb s, gb h)] ->
+  forall c l, In (c, l) [(c0 s, g0 h); (ca s, ga h); (cb s, gb h); (cs s, gs h)] ->
   forall b, 0 <= b < N ->
   exists j, (sl r (now s) - N < j <= sl r (now s) /\ j mod N = b) /\
             (forall j', sl r (now s) - N < j' <= sl r (now s) -> j' mod N = b -> j' = j) /\
@@ -91,7 +92,7 @@ Proof. intros N r start ops s h HN Hr Hs Ht Hrun A B.
   rewrite EA in WA. rewrite EB in WB. split; [exact WA|]. split; [exact WB|]. intros ZA ZB.
   assert (Hg : GNonneg h).
   { eapply (GNonneg_gexec r N); [lia|lia|exact Ht|exact Hnn| | |exact Hrun]; [apply SInv_init; lia|repeat split; apply nonneg_nil]. }
-  destruct Hg as (_ & Ga & Gb).
+  destruct Hg as (_ & Ga & Gb & _).
   pose proof (sumif_nonneg (fun e => now s - (N - 1) * r <=? fst e) (ga h) Ga).
   pose proof (sumif_nonneg (fun e => now s - (N - 1) * r <=? fst e) (gb h) Gb).
   unfold since_incl in *. rewrite ER. apply ratio_q_empty. lia. Qed.
@@ -117,6 +118,27 @@ Proof. intros N r start ops s h HN Hr Hs Ht Hrun.
   - intros cnt cbk E. rewrite reach_count_obs in E. inv E. rewrite EC. symmetry.
     apply (reach_count_exact N r start ops s h HN Hr Hs Ht Hrun). left; reflexivity. Qed.
 Print Assumptions C17_append.
+
+(* A snapshot taken with Clone() and kept lives on independently: it starts with the increments the counter holds (its
+   ghost log [gs] is the counter's log at that moment), later increments of either do not reach the other, and at any
+   later time the snapshot's Count() obeys the same window bounds over its own log *)
+Theorem C17_snapshot : forall N r start ops s h,
+  1 <= N -> 1 <= r -> N * r <= start -> ticks_nonneg ops ->
+  gexec r (init N start) gnil ops = (s, h) ->
+  gs (glog r s h TakeClone) = g0 h /\ g0 (glog r s h TakeClone) = g0 h /\
+  (forall v, c0 (fst (step r s (SnapInc v))) = c0 s /\ g0 (glog r s h (SnapInc v)) = g0 h) /\
+  (forall v, cs (fst (step r s (Inc v))) = cs s /\ gs (glog r s h (Inc v)) = gs h) /\
+  (forall cnt cbk, snd (step r s SnapCount) = [cnt; cbk] ->
+     cnt = sumif (inwin r N (sl r (now s))) (gs h) /\
+     (incs_nonneg ops -> since_incl ((N - 1) * r) (now s) (gs h) <= cnt <= since_excl (N * r) (now s) (gs h))).
+Proof. intros N r start ops s h HN Hr Hs Ht Hrun. split; [reflexivity|]. split; [reflexivity|].
+  split; [intros v; split; reflexivity|]. split; [intros v; split; reflexivity|].
+  intros cnt cbk E. cbn [step snd] in E. unfold count in E. cbn [snd] in E. inv E.
+  pose proof (reach_count_exact N r start ops s h HN Hr Hs Ht Hrun (cs s) (gs h) ltac:(right; right; right; left; reflexivity)) as EC.
+  unfold count in EC. cbn [snd] in EC. split; [exact EC|]. intros Hnn.
+  pose proof (reach_window N r start ops s h HN Hr Hs Ht Hrun Hnn (cs s) (gs h) ltac:(right; right; right; left; reflexivity)) as W.
+  unfold count in W. cbn [snd] in W. exact W. Qed.
+Print Assumptions C17_snapshot.
 
 (* old events always age out: after idling a full window N*r every count is 0 and the ratio is 0 *)
 Theorem C17_ages_out : forall N r start ops s h d,
@@ -171,4 +193,11 @@ Proof. cbv zeta. split; [lia|]. split; [lia|]. split; [lia|]. split; [|split].
    appending the counter's own clone then doubles it *)
 Example C17_append_example :
   run [3; 1000000000; 1600000000123456789] [[0;5];[2;4000000000];[8;1];[1];[9];[1]] = [[];[];[];[1;2];[];[2;2]].
+Proof. vm_compute. reflexivity. Qed.
+
+(* a kept snapshot and its source go separate ways (N = 3, r = 1 s): 1 counted, snapshot taken; a second later 10 more on
+   the source and 100 on the snapshot: the source reports 11, the snapshot 101 *)
+Example C17_snapshot_example :
+  run [3; 1000000000; 1600000000123456789] [[0;1];[10];[2;1000000000];[0;10];[11];[1];[12;100];[11];[1]]
+  = [[];[];[];[];[1;0];[11;2];[];[101;1];[11;2]].
 Proof. vm_compute. reflexivity. Qed.
